@@ -28,7 +28,7 @@ def run(prog, rep):
     # ---- E7.w
     rep.rule("E7.w", "Parser.{offset,location,chars} are written only by Parser::next (offset += len_utf8(ch), location.advance(ch), chars.next()); Location::advance: '\\n' → row+1, column=0; else column+1")
     writers = {k: set() for k in POS_FIELDS}
-    for f in prog.fns.values():
+    for f in prog.shape_fns():
         if f.body is None or f.crate.prefix != "tsg":
             continue
         tr = None
@@ -66,7 +66,7 @@ def run(prog, rep):
         rep.check(ok2, "E7.w", "Parser::next :: location step", f.loc(), "location.advance(the char just taken)", "location is not advanced with the consumed character")
     else:
         rep.violation("E7.w", "anchor-lost:Parser::next", "", "not found")
-    la = [f for f in prog.fns.values() if f.name == "advance" and f.self_path == "tsg::parser::Location"]
+    la = [f for f in prog.shape_fns() if f.name == "advance" and f.self_path == "tsg::parser::Location"]
     if len(la) == 1:
         f = la[0]
         body, tr = f.body, Tracer(f.body)
